@@ -50,6 +50,9 @@ claimed = {
  "C19": dict(
    text="Lean 4 proof: the ACME recogniser accepts a line with (value, label) IF AND ONLY IF the line is a well-formed definition of that label with that value (C19_acme_exact, both directions, all strings); accepted 64tass lines have the documented shape with a hex field or a decimal field not above 65535 (C19_tass_sound); accepted values fit in 16 bits; file level: success iff no over-long line and every line accepted, definitions in file order, labels per address in file order (C19_file, C19_labels_order). The recognisers are hand-written for the regular expressions; regex literals and the scanner-error check are regenerated facts (C19_facts); recogniser = Go regexp is established by the differential, not by proof.",
    technique="Lean 4 exact-language proof for hand-written recognisers + regenerated regex/scanner facts + differential incl. all single-character corruptions"),
+ "C16": dict(
+   text="Lean 4 proof on plain 64K RAM with the register block in one page: after a store to a multiplier operand byte the four result bytes hold the little-endian 32-bit product of the two 16-bit operands as they are after that store, the byte itself holds the stored value, nothing else changes (C16_mul, C16_mul_data, all operand values); divider likewise with quotient/remainder and the zero-divisor case (C16_div, C16_div_data); units react exactly to their own four bytes and only when enabled (C16_enable); every other store, result registers included, is a plain store (C16_other). Tie: differential on machines built from configurations with all flag values and many bases.",
+   technique="Lean 4 proof of the coprocessor handlers over function-update memory + differential store sequences"),
 }
 
 checks = []
